@@ -44,6 +44,17 @@ def cases(tier, seed):
                         yield {"mode": "square", "circ": circ, "vk": vk}
                         if inp != "gau" or nv <= 2:
                             yield {"mode": "square-int", "circ": circ, "vk": vk}
+    # mixed input kinds per variable (fold groups of constant / input layers of different families), complex parameters
+    for tree in A.REPRESENTATIVE_TREES + [("P", [0, 1])]:
+        for prod in ["had", "kro"]:
+            for mixed in (["emb", "cat-logits", "cat-probs"], ["cat-logits", "gau-lp", "emb"], ["gau", "emb", "gau-lp"], ["bin-probs", "cat-probs", "emb"]):
+                circ = dict(tree=tree, prod=prod, style="cpt", nary="dense", kin=2, ksum=2, kout=1, inp="emb", numbering="id", mixed=mixed)
+                for mode in (["base", "int-partial", "square-int", "evi-fold"] if "bin-probs" not in mixed else ["base", "evi-fold"]):
+                    yield {"mode": mode, "circ": circ, "vk": "monotone"}
+            for style in ["cpt", "sumsum", "cp"]:
+                circ = dict(tree=tree, prod=prod, style=style, nary="dense", kin=2 if prod == "had" else 1, ksum=2 if prod == "had" else 1, kout=1, inp="emb", numbering="id", cplx=True)
+                yield {"mode": "base", "circ": circ, "vk": "complex"}
+                yield {"mode": "square", "circ": circ, "vk": "complex"}
     for tree in A.REPRESENTATIVE_TREES + [("P", [0, 1]), ("M", [[0, 1], [1, 0]]), ("M", [[0, 1, 2], [2, 0, 1]])]:
         for prod in ["had", "kro"]:
             for inp, vk in [("emb", "generic"), ("cat-logits", "monotone"), ("cat-softmax", "monotone"), ("gau-lp", "monotone"), ("poly2", "generic")]:
@@ -66,7 +77,7 @@ def pipeline_of(case):
     m = case["mode"]
     c = case["circ"]
     vs = pools.var_ids(pools.tt(c["tree"]), c["numbering"])
-    cont = c["inp"].startswith(("gau", "poly"))
+    cont = c["inp"].startswith(("gau", "poly")) or any(m.startswith("gau") for m in (c.get("mixed") or []))
     if m == "base":
         return {"circuits": [spec]}, [0]
     if m == "square":
